@@ -38,6 +38,10 @@ pub struct Workload {
     pub deepen: u32,
     pub read_plan: IoPlan,
     pub write_plan: IoPlan,
+    /// instead of fetching into a prepared repository: clone the first state (gitoxide's own file transport, no seam)
+    /// next to `git clone --no-checkout`, then go on fetching the other states through the seam
+    #[serde(default)]
+    pub clone: bool,
 }
 
 pub const REFSPECS: &[&[&str]] = &[
@@ -127,7 +131,7 @@ fn generate(seed: u64) -> Workload {
     let plan = |r: &mut Rng| IoPlan { max_chunk: *r.pick(&[0usize, 0, 1, 7, 100, 4000, 70_000]), intr_permille: *r.pick(&[0u32, 0, 30, 200]), ..Default::default() };
     let read_plan = plan(&mut r);
     let write_plan = plan(&mut r);
-    Workload { states, version: *r.pick(&[1u8, 2, 2]), refspecs: r.usize_below(REFSPECS.len()), tags: *r.pick(&[0u8, 0, 0, 1, 2]), depth: *r.pick(&[0u32, 0, 0, 0, 1, 2]), deepen: *r.pick(&[0u32, 0, 1, 2]), read_plan, write_plan }
+    Workload { states, version: *r.pick(&[1u8, 2, 2]), refspecs: r.usize_below(REFSPECS.len()), tags: *r.pick(&[0u8, 0, 0, 1, 2]), depth: *r.pick(&[0u32, 0, 0, 0, 1, 2]), deepen: *r.pick(&[0u32, 0, 1, 2]), read_plan, write_plan, clone: r.chance(200) }
 }
 
 fn gix_fetch(client: &Path, srv: &Path, w: &Workload, depth: u32, deepen: u32, seed: u64, replay: Option<Vec<u16>>, rep: &mut Report) -> Result<String, String> {
@@ -283,6 +287,9 @@ impl Fetch {
         let srv = sb.join("srv");
         let (cg, ct) = (sb.join("client-gix"), sb.join("client-git"));
         for c in [&cg, &ct] {
+            if w.clone {
+                break;
+            }
             copy_tree(&ctx.worker_dir.join("client-template"), c)?;
             out(git(c).args(["remote", "add", "origin"]).arg(&srv))?;
             out(git(c).args(["config", "--unset-all", "remote.origin.fetch"]))?;
@@ -290,7 +297,12 @@ impl Fetch {
                 out(git(c).args(["config", "--add", "remote.origin.fetch", s]))?;
             }
         }
-        let shape = format!("refspecs={} tags={} v={} depth={} deepen={}", w.refspecs, w.tags, w.version, w.depth, if w.depth > 0 && w.states.len() > 1 { w.deepen } else { 0 });
+        if w.clone {
+            for c in [&cg, &ct] {
+                let _ = std::fs::remove_dir_all(c);
+            }
+        }
+        let shape = format!("{}refspecs={} tags={} v={} depth={} deepen={}", if w.clone { "clone " } else { "" }, w.refspecs, w.tags, w.version, w.depth, if w.depth > 0 && w.states.len() > 1 { w.deepen } else { 0 });
         let mut log = String::new();
         let mut diverged_legitimately = false;
         for (step, st) in w.states.iter().enumerate() {
@@ -300,6 +312,80 @@ impl Fetch {
             copy_tree(&ctx.worker_dir.join(format!("state-{st}")), &srv)?;
             let depth = if step == 0 { w.depth } else { 0 };
             let deepen = if step == 1 && w.depth > 0 { w.deepen } else { 0 };
+            if w.clone && step == 0 {
+                // the twin
+                let mut tc = Command::new("git");
+                tc.env("GIT_CONFIG_NOSYSTEM", "1").env("GIT_CONFIG_GLOBAL", "/dev/null").env_remove("GIT_PROTOCOL").args(["-c", &format!("protocol.version={}", w.version), "-c", "init.defaultBranch=main", "clone", "-q", "--no-checkout"]);
+                if depth > 0 {
+                    tc.arg(format!("--depth={depth}")).arg("--no-single-branch");
+                }
+                // a local path would be cloned by copying: go through the transport
+                tc.arg(format!("file://{}", srv.display())).arg(&ct);
+                let twin = tc.output().map_err(|e| e.to_string())?;
+                if !twin.status.success() {
+                    return Err(format!("git clone failed: {}", String::from_utf8_lossy(&twin.stderr)));
+                }
+                let (srv2, cg2, version) = (srv.clone(), cg.clone(), w.version);
+                let ours = gixsim_rt::io::catch_panics(move || -> Result<(), String> {
+                    let open = gix::open::Options::isolated().config_overrides([format!("protocol.version={version}"), "committer.name=client".into(), "committer.email=client@example.com".into(), "init.defaultBranch=main".into()]);
+                    let mut prep = gix::clone::PrepareFetch::new(format!("file://{}", srv2.display()).as_str(), &cg2, gix::create::Kind::WithWorktree, gix::create::Options::default(), open).map_err(|e| format!("prepare clone: {}", chain(&e)))?;
+                    if let Some(d) = std::num::NonZeroU32::new(depth) {
+                        prep = prep.with_shallow(gix::remote::fetch::Shallow::DepthAtRemote(d));
+                    }
+                    let interrupt = std::sync::atomic::AtomicBool::new(false);
+                    let (_repo, _out) = prep.fetch_only(gix_features::progress::Discard, &interrupt).map_err(|e| format!("clone fetch: {}", chain(&e)))?;
+                    Ok(())
+                });
+                rep.ops += 1;
+                match ours {
+                    Err(p) => {
+                        rep.violate(P, format!("fetch clone panic | {shape}"), format!("state {st}: {p:?}"));
+                        break;
+                    }
+                    Ok(Err(e)) => {
+                        rep.violate(P, format!("fetch clone failed-where-git-succeeds | {shape}"), format!("state {st}: {e}"));
+                        break;
+                    }
+                    Ok(Ok(())) => {}
+                }
+                let fmt = "--format=%(refname) %(objectname) %(symref)";
+                let describe = |c: &Path| -> Result<String, String> {
+                    let mut d = out(git(c).args(["for-each-ref", fmt]))?;
+                    d.push_str(&format!("HEAD -> {}\n", std::fs::read_to_string(c.join(".git/HEAD")).unwrap_or_default().trim()));
+                    for k in ["remote.origin.url", "remote.origin.fetch", "branch.main.remote", "branch.main.merge", "branch.feature/x.remote", "branch.feature/x.merge"] {
+                        let v = git(c).args(["config", "--get-all", k]).output().map(|o| String::from_utf8_lossy(&o.stdout).trim().replace('\n', ",")).unwrap_or_default();
+                        d.push_str(&format!("{k} = {v}\n"));
+                    }
+                    let mut sh: Vec<String> = std::fs::read_to_string(c.join(".git/shallow")).unwrap_or_default().lines().map(|s| s.to_string()).collect();
+                    sh.sort();
+                    sh.dedup();
+                    d.push_str(&format!("shallow {sh:?}\n"));
+                    Ok(d)
+                };
+                let (a, b) = (describe(&ct)?, describe(&cg)?);
+                if a != b {
+                    let la: Vec<&str> = a.lines().filter(|l| !b.lines().any(|x| x == *l)).take(4).collect();
+                    let lb: Vec<&str> = b.lines().filter(|l| !a.lines().any(|x| x == *l)).take(4).collect();
+                    let what = la.first().or(lb.first()).map(|l| if l.starts_with("HEAD") { "head" } else if l.starts_with("refs/tags") { "tag" } else if l.starts_with("refs/") { "ref" } else if l.starts_with("shallow") { "shallow" } else { "config" }).unwrap_or("");
+                    rep.violate(P, format!("fetch clone differs-from-git-clone {what} | {shape}"), format!("cloning state {st}: git clone has {la:?}; gitoxide has {lb:?}"));
+                    break;
+                }
+                let fsck = git(&cg).args(["fsck", "--connectivity-only", "--no-dangling"]).output().map_err(|e| e.to_string())?;
+                let fsck_text = format!("{}{}", String::from_utf8_lossy(&fsck.stdout), String::from_utf8_lossy(&fsck.stderr));
+                if !fsck.status.success() || fsck_text.contains("missing") || fsck_text.contains("broken") {
+                    rep.violate(P, format!("fetch clone fsck-complains | {shape}"), format!("after cloning state {st}: {}", fsck_text.lines().take(4).collect::<Vec<_>>().join("; ")));
+                    break;
+                }
+                *rep.probes.entry("cloned-like-git".into()).or_insert(0) += 1;
+                log.push_str(&format!("step0 state{st} clone | "));
+                // both clones go on as ordinary clients; they need what the template would have given them
+                for c in [&cg, &ct] {
+                    for (k, v) in [("gc.auto", "0"), ("pack.threads", "1"), ("user.name", "client"), ("user.email", "client@example.com")] {
+                        out(git(c).args(["config", k, v]))?;
+                    }
+                }
+                continue;
+            }
             // the twin first: what git does is the expectation
             let mut tf = git(&ct);
             tf.args(["-c", &format!("protocol.version={}", w.version), "fetch", "-q"]);
